@@ -231,7 +231,7 @@ manifest = {
         "enable": "harnesses are compiled by tools/vlib.py with -DBBLANCHON_ARDUINOJSON_VERIF=1 against /repo/src",
         "baseline_off_cmd": "cmake -G Ninja -S /repo -B /repo/_build >/dev/null && cmake --build /repo/_build && "
                             "ctest --test-dir /repo/_build -j8 --timeout 900",
-        "source_commits": [],
+        "source_commits": ["a10c7e4"],
         "add_only": True,
     },
     "engines": [
